@@ -1,7 +1,7 @@
 (* C19 - Rendering is a pure function of its inputs: property theorems only
    (models: model/C19Cache.v C19Names.v C19Pdf.v C19Relayout.v; proofs: proofs/C19_*.v).
    In Gallina every function is pure: the theorems are about the models that carry the STATE the code carries (the
-   caller's image cache and the mutable image objects in it, the resource dictionaries and the iteration order of a
+   caller's image cache and the image objects in it, the resource dictionaries and the iteration order of a
    set, the style dictionary flex layout writes into) and about the output options (zoom, copy).  Hash-seed
    independence, module-level state and dict/set iteration order of the real interpreter are covered by the
    differential monitor of harness/p_c19.py only. *)
@@ -11,75 +11,110 @@ Require Import WV.proofs.C19_args WV.proofs.C19_cache WV.proofs.C19_names WV.pro
 Import ListNotations.
 
 (* ---- 1. the image cache (get_image_from_uri + options['cache']), all operation histories ----
-   run s h: the observations of the history h (Get url variant | Emit url dpi_ratio) on the dictionary state s;
-   spec_run [] h: what every operation gives with no cache at all (cold u v = decode (fetch u) for the variant).
-   Whether the dictionary is empty, warm, or was filled by other renders: same values, provided every URL is asked
-   for with ONE variant and no dpi down-sampling happens (both provisos are necessary: see 1c, 1d). *)
+   The dictionary key is (URL, key part) with key part = (image-orientation, dpi, optimize_images, jpeg_quality); the
+   forced mime type is the one argument of a load that is not in the key.
+   run s h: the observations of the history h (Get url key mime | Emit url key dpi_ratio) on the dictionary state s;
+   spec_run [] h: what every operation gives with no cache at all (cold u k m = decode (fetch u) k m; for Emit, that
+   value embedded with the ratio).  Whether the dictionary is empty, warm, or was filled by other renders - with any
+   orientations, image options and dpi ratios: same values. *)
 Theorem C19_cache_is_transparent
-  (Url Variant Bytes Data Ratio : Type) (url_eqb : Url -> Url -> bool)
-  (url_eqb_eq : forall a b, url_eqb a b = true <-> a = b) (is_one : Ratio -> bool)
-  (fetch : Url -> option Bytes) (decode : Url -> Bytes -> Variant -> option Data) (resample : Data -> Ratio -> Data)
-  (h : list (op Url Variant Ratio)) :
-  one_variant_per_url Url Variant Ratio h -> no_resampling_p Url Variant Ratio is_one h ->
-  map (value_of Data) (snd (C19Cache.run Url Variant Bytes Data Ratio url_eqb is_one fetch decode resample empty h)) =
-  spec_run Url Variant Bytes Data Ratio url_eqb fetch decode [] h.
-Proof. exact (cache_is_transparent Url Variant Bytes Data Ratio url_eqb url_eqb_eq is_one fetch decode resample h). Qed.
+  (Url Key Mime Bytes Data Ratio : Type) (url_eqb : Url -> Url -> bool)
+  (url_eqb_eq : forall a b, url_eqb a b = true <-> a = b) (key_eqb : Key -> Key -> bool)
+  (key_eqb_eq : forall a b, key_eqb a b = true <-> a = b) (is_one : Ratio -> bool)
+  (fetch : Url -> option Bytes) (decode : Url -> Bytes -> Key -> Mime -> option Data) (resample : Data -> Ratio -> Data)
+  (h : list (op Url Key Mime Ratio)) :
+  one_mime_per_key Url Key Mime Ratio h ->
+  map (value_of Data) (snd (C19Cache.run Url Key Mime Bytes Data Ratio url_eqb key_eqb is_one fetch decode resample empty h)) =
+  spec_run Url Key Mime Bytes Data Ratio url_eqb key_eqb is_one fetch decode resample [] h.
+Proof. exact (cache_is_transparent Url Key Mime Bytes Data Ratio url_eqb url_eqb_eq key_eqb key_eqb_eq is_one fetch decode resample h). Qed.
 Print Assumptions C19_cache_is_transparent.
+
+(* without any proviso when the decoders do not tell forced mime types apart (measured on the implementation at every
+   run: obligation premise:decode-ignores-forced-mime) *)
+Theorem C19_cache_is_transparent_when_mime_is_ignored
+  (Url Key Mime Bytes Data Ratio : Type) (url_eqb : Url -> Url -> bool)
+  (url_eqb_eq : forall a b, url_eqb a b = true <-> a = b) (key_eqb : Key -> Key -> bool)
+  (key_eqb_eq : forall a b, key_eqb a b = true <-> a = b) (is_one : Ratio -> bool)
+  (fetch : Url -> option Bytes) (decode : Url -> Bytes -> Key -> Mime -> option Data) (resample : Data -> Ratio -> Data)
+  (h : list (op Url Key Mime Ratio)) :
+  (forall u b k m m', decode u b k m = decode u b k m') ->
+  map (value_of Data) (snd (C19Cache.run Url Key Mime Bytes Data Ratio url_eqb key_eqb is_one fetch decode resample empty h)) =
+  spec_run Url Key Mime Bytes Data Ratio url_eqb key_eqb is_one fetch decode resample [] h.
+Proof. exact (cache_is_transparent_when_mime_is_ignored Url Key Mime Bytes Data Ratio url_eqb url_eqb_eq key_eqb key_eqb_eq is_one fetch decode resample h). Qed.
+Print Assumptions C19_cache_is_transparent_when_mime_is_ignored.
 
 (* 1b. warm = cold: after any earlier history `pre` on the same dictionary (other renders sharing the cache) a
    history that loads what it embeds observes exactly what it observes on an empty dictionary *)
 Theorem C19_warm_cache_equals_cold_cache
-  (Url Variant Bytes Data Ratio : Type) (url_eqb : Url -> Url -> bool)
-  (url_eqb_eq : forall a b, url_eqb a b = true <-> a = b) (is_one : Ratio -> bool)
-  (fetch : Url -> option Bytes) (decode : Url -> Bytes -> Variant -> option Data) (resample : Data -> Ratio -> Data)
-  (pre h : list (op Url Variant Ratio)) :
-  one_variant_per_url Url Variant Ratio (pre ++ h) -> no_resampling_p Url Variant Ratio is_one (pre ++ h) ->
-  self_contained Url Variant Ratio h ->
-  let run := C19Cache.run Url Variant Bytes Data Ratio url_eqb is_one fetch decode resample in
+  (Url Key Mime Bytes Data Ratio : Type) (url_eqb : Url -> Url -> bool)
+  (url_eqb_eq : forall a b, url_eqb a b = true <-> a = b) (key_eqb : Key -> Key -> bool)
+  (key_eqb_eq : forall a b, key_eqb a b = true <-> a = b) (is_one : Ratio -> bool)
+  (fetch : Url -> option Bytes) (decode : Url -> Bytes -> Key -> Mime -> option Data) (resample : Data -> Ratio -> Data)
+  (pre h : list (op Url Key Mime Ratio)) :
+  one_mime_per_key Url Key Mime Ratio (pre ++ h) -> self_contained Url Key Mime Ratio h ->
+  let run := C19Cache.run Url Key Mime Bytes Data Ratio url_eqb key_eqb is_one fetch decode resample in
   map (value_of Data) (snd (run (fst (run empty pre)) h)) = map (value_of Data) (snd (run empty h)).
-Proof. exact (warm_cache_equals_cold_cache Url Variant Bytes Data Ratio url_eqb url_eqb_eq is_one fetch decode resample pre h). Qed.
+Proof. exact (warm_cache_equals_cold_cache Url Key Mime Bytes Data Ratio url_eqb url_eqb_eq key_eqb key_eqb_eq is_one fetch decode resample pre h). Qed.
 Print Assumptions C19_warm_cache_equals_cold_cache.
 
-(* 1c. the failure case: a failed fetch or decode stores None under the URL; later requests (any variant) get None
+(* 1c. embedding an image at write time, with any dpi ratio, leaves the dictionary and the cached objects as they are *)
+Theorem C19_embedding_leaves_the_cache_unchanged
+  (Url Key Mime Bytes Data Ratio : Type) (url_eqb : Url -> Url -> bool) (key_eqb : Key -> Key -> bool) (is_one : Ratio -> bool)
+  (fetch : Url -> option Bytes) (decode : Url -> Bytes -> Key -> Mime -> option Data) (resample : Data -> Ratio -> Data)
+  (s : state Url Key Data) (u : Url) (k : Key) (r : Ratio) :
+  fst (C19Cache.step Url Key Mime Bytes Data Ratio url_eqb key_eqb is_one fetch decode resample s (Emit u k r)) = s.
+Proof. exact (embedding_leaves_the_cache_unchanged Url Key Mime Bytes Data Ratio url_eqb key_eqb is_one fetch decode resample s u k r). Qed.
+Print Assumptions C19_embedding_leaves_the_cache_unchanged.
+
+(* 1d. the failure case: a failed fetch or decode stores None under the key; later requests of the key get None
    without a second fetch *)
 Theorem C19_failed_load_is_cached
-  (Url Variant Bytes Data Ratio : Type) (url_eqb : Url -> Url -> bool)
-  (url_eqb_eq : forall a b, url_eqb a b = true <-> a = b) (is_one : Ratio -> bool)
-  (fetch : Url -> option Bytes) (decode : Url -> Bytes -> Variant -> option Data) (resample : Data -> Ratio -> Data)
-  (s : state Url Data) (u : Url) (v : Variant) :
-  let step := C19Cache.step Url Variant Bytes Data Ratio url_eqb is_one fetch decode resample in
-  lookup Url url_eqb u (cache s) = None -> cold Url Variant Bytes Data fetch decode u v = None ->
-  let '(s', x) := step s (Get u v) in
-  x = OGet None /\ lookup Url url_eqb u (cache s') = Some None /\ forall v', step s' (Get u v') = (s', OGet None).
-Proof. exact (failed_load_is_cached Url Variant Bytes Data Ratio url_eqb url_eqb_eq is_one fetch decode resample s u v). Qed.
+  (Url Key Mime Bytes Data Ratio : Type) (url_eqb : Url -> Url -> bool)
+  (url_eqb_eq : forall a b, url_eqb a b = true <-> a = b) (key_eqb : Key -> Key -> bool)
+  (key_eqb_eq : forall a b, key_eqb a b = true <-> a = b) (is_one : Ratio -> bool)
+  (fetch : Url -> option Bytes) (decode : Url -> Bytes -> Key -> Mime -> option Data) (resample : Data -> Ratio -> Data)
+  (s : state Url Key Data) (u : Url) (k : Key) (m : Mime) :
+  let step := C19Cache.step Url Key Mime Bytes Data Ratio url_eqb key_eqb is_one fetch decode resample in
+  lookup Url Key url_eqb key_eqb (u, k) (cache s) = None -> cold Url Key Mime Bytes Data fetch decode u k m = None ->
+  let '(s', x) := step s (Get u k m) in
+  x = OGet None /\ lookup Url Key url_eqb key_eqb (u, k) (cache s') = Some None /\ forall m', step s' (Get u k m') = (s', OGet None).
+Proof. exact (failed_load_is_cached Url Key Mime Bytes Data Ratio url_eqb url_eqb_eq key_eqb key_eqb_eq is_one fetch decode resample s u k m). Qed.
 Print Assumptions C19_failed_load_is_cached.
 
-Theorem C19_each_url_fetched_at_most_once
-  (Url Variant Bytes Data Ratio : Type) (url_eqb : Url -> Url -> bool)
-  (url_eqb_eq : forall a b, url_eqb a b = true <-> a = b) (is_one : Ratio -> bool)
-  (fetch : Url -> option Bytes) (decode : Url -> Bytes -> Variant -> option Data) (resample : Data -> Ratio -> Data)
-  (h : list (op Url Variant Ratio)) :
-  NoDup (fetched (fst (C19Cache.run Url Variant Bytes Data Ratio url_eqb is_one fetch decode resample empty h))).
-Proof. exact (each_url_fetched_at_most_once Url Variant Bytes Data Ratio url_eqb url_eqb_eq is_one fetch decode resample h). Qed.
-Print Assumptions C19_each_url_fetched_at_most_once.
+Theorem C19_each_key_fetched_at_most_once
+  (Url Key Mime Bytes Data Ratio : Type) (url_eqb : Url -> Url -> bool)
+  (url_eqb_eq : forall a b, url_eqb a b = true <-> a = b) (key_eqb : Key -> Key -> bool)
+  (key_eqb_eq : forall a b, key_eqb a b = true <-> a = b) (is_one : Ratio -> bool)
+  (fetch : Url -> option Bytes) (decode : Url -> Bytes -> Key -> Mime -> option Data) (resample : Data -> Ratio -> Data)
+  (h : list (op Url Key Mime Ratio)) :
+  NoDup (fetched (fst (C19Cache.run Url Key Mime Bytes Data Ratio url_eqb key_eqb is_one fetch decode resample empty h))).
+Proof. exact (each_key_fetched_at_most_once Url Key Mime Bytes Data Ratio url_eqb url_eqb_eq key_eqb key_eqb_eq is_one fetch decode resample h). Qed.
+Print Assumptions C19_each_key_fetched_at_most_once.
 
-(* 1d. refuted without the provisos (witnesses replayed on the implementation by the streams cache-direct / probes):
-   the key is the URL alone [listed: c13:image-cache-ignores-orientation; also dpi, optimize_images, jpeg_quality] *)
-Theorem C19_cache_is_transparent_refuted_across_variants :
-  let run := C19Cache.run Z Z unit term Z Z.eqb (fun r => (r =? 1)%Z) (t_fetch []) (t_decode [(7, 0); (7, 1)]%Z) t_resample in
-  map (value_of term) (snd (run empty two_variants)) = [Some (7, 0, []); Some (7, 0, [])]%Z /\
-  spec_run Z Z unit term Z Z.eqb (t_fetch []) (t_decode [(7, 0); (7, 1)]%Z) [] two_variants = [Some (7, 0, []); Some (7, 1, [])]%Z.
-Proof. exact cache_not_transparent_across_variants. Qed.
-Print Assumptions C19_cache_is_transparent_refuted_across_variants.
+(* 1e. the former refutations (the key was the URL alone; get_x_object wrote the thumbnail into the cached object),
+   now positive on the instance the correspondence stream uses: two key parts of one URL are two loads ... *)
+Theorem C19_cache_separates_key_parts :
+  map (value_of term) (snd (run_t [] [(7, 0, 0); (7, 1, 0)]%Z empty two_variants)) =
+    [Some (7, 0, 0, []); Some (7, 1, 0, []); Some (7, 0, 0, [])]%Z /\
+  length (fetched (fst (run_t [] [(7, 0, 0); (7, 1, 0)]%Z empty two_variants))) = 2%nat.
+Proof. exact cache_separates_key_parts. Qed.
+Print Assumptions C19_cache_separates_key_parts.
 
-(* ... and get_x_object writes the dpi-down-sampled data back into the cached object *)
-Theorem C19_cache_is_transparent_refuted_after_resampling :
-  let run := C19Cache.run Z Z unit term Z Z.eqb (fun r => (r =? 1)%Z) (t_fetch []) (t_decode [(7, 0)]%Z) t_resample in
-  map (value_of term) (snd (run empty resampled_then_reused)) =
-    [Some (7, 0, []); Some (7, 0, [5]); Some (7, 0, [5]); Some (7, 0, [5])]%Z /\
-  map (value_of term) (snd (run empty [Get 7 0; Emit 7 1]%Z)) = [Some (7, 0, []); Some (7, 0, [])]%Z.
-Proof. exact cache_not_transparent_after_resampling. Qed.
-Print Assumptions C19_cache_is_transparent_refuted_after_resampling.
+(* ... and a render that embeds with ratio 5 leaves the full image to the render that shares the dictionary *)
+Theorem C19_resampling_is_not_remembered :
+  map (value_of term) (snd (run_t [] [(7, 0, 0)]%Z empty resampled_then_reused)) =
+    [Some (7, 0, 0, []); Some (7, 0, 0, [5]); Some (7, 0, 0, []); Some (7, 0, 0, []); Some (7, 0, 0, [5])]%Z.
+Proof. exact resampling_is_not_remembered. Qed.
+Print Assumptions C19_resampling_is_not_remembered.
+
+(* what stays outside the key: a decoder that told forced mime types apart would leak (model-level witness only: the
+   implementation's decoders do not, see 1a') *)
+Theorem C19_cache_key_ignores_forced_mime_type :
+  map (value_of term) (snd (run_t [] [(7, 0, 0); (7, 0, 1)]%Z empty [Get 7 0 0; Get 7 0 1]%Z)) = [Some (7, 0, 0, []); Some (7, 0, 0, [])]%Z /\
+  spec_run Z Z Z unit term Z Z.eqb Z.eqb (fun r => (r =? 1)%Z) (t_fetch []) (t_decode [(7, 0, 0); (7, 0, 1)]%Z) t_resample [] [Get 7 0 0; Get 7 0 1]%Z =
+    [Some (7, 0, 0, []); Some (7, 0, 1, [])]%Z.
+Proof. exact cache_key_ignores_forced_mime_type. Qed.
+Print Assumptions C19_cache_key_ignores_forced_mime_type.
 
 (* ---- 2. resource names (Stream.set_state / add_group / add_pattern / add_shading / add_image, the images table) ----
    outcome order cs = (names handed out, keys of every resource dictionary, images with max(dpi_ratios)) for the call
@@ -132,10 +167,11 @@ Theorem C19_pdf_coordinates_scale_linearly_refuted_bleed_box : ~ linear (fun z =
 Proof. exact bleed_box_not_linear_beyond_cap. Qed.
 Print Assumptions C19_pdf_coordinates_scale_linearly_refuted_bleed_box.
 
-(* the font size of form field appearances: style['font_size'] * 0.75, the zoom does not appear *)
-Theorem C19_pdf_coordinates_scale_linearly_refuted_form_font : ~ form_font_size 2 10 == 2 * form_font_size 1 10.
-Proof. exact form_font_size_not_linear. Qed.
-Print Assumptions C19_pdf_coordinates_scale_linearly_refuted_form_font.
+(* the font size of form field appearances (text fields, check boxes; radio buttons) follows the zoom *)
+Theorem C19_form_font_size_linear (z fs : Q) :
+  form_font_size z fs == z * form_font_size 1 fs /\ radio_font_size z fs == z * radio_font_size 1 fs.
+Proof. exact (form_font_size_linear z fs). Qed.
+Print Assumptions C19_form_font_size_linear.
 
 (* ---- 4. Document.copy(pages) ---- *)
 Theorem C19_copy_selects_exactly (Page Meta Out : Type) (paint : Page -> Out) (d : document Page Meta) (sel : list Page) :
@@ -147,22 +183,31 @@ Theorem C19_copy_selects_exactly (Page Meta Out : Type) (paint : Page -> Out) (d
 Proof. exact (copy_selects_exactly Page Meta Out paint d sel). Qed.
 Print Assumptions C19_copy_selects_exactly.
 
-(* ---- 5. flex layout writes the stretched cross size into child.style ----
-   layout c: per line (cross size, start, used item heights); after c: the container with the styles as the pass left
-   them.  Laying out again gives the same result for auto-height and for single-line containers ... *)
+(* ---- 5. flex layout and child.style ----
+   layout c: per line (cross size, start, used item heights); after c: the container as the next layout of the same
+   boxes finds it.  The stretched sizes are written to copies: every container laid out again gives the same result *)
 Theorem C19_relayout_idempotent (c : container) :
-  c_cross c = None \/ (length (c_lines c) <= 1)%nat -> same_layout (layout (after c)) (layout c).
+  after c = c /\ same_layout (layout (after c)) (layout c) /\ c_lines (after_shared_style c) = laid_out_items c.
 Proof. exact (relayout_idempotent c). Qed.
 Print Assumptions C19_relayout_idempotent.
 
+(* the variant that wrote into the style shared by all copies of the box was idempotent for auto-height and for
+   single-line containers only ... *)
+Theorem C19_shared_style_idempotent_cases (c : container) :
+  c_cross c = None \/ (length (c_lines c) <= 1)%nat -> same_layout (layout (after_shared_style c)) (layout c).
+Proof. exact (shared_style_idempotent_cases c). Qed.
+Print Assumptions C19_shared_style_idempotent_cases.
+
 (* ... and not for a multi-line container with a definite height (align-content: stretch): height 100, item a auto
-   (10 px of content, stretched) on line 1, item b 20 px on line 2: lines 45/55 the first time, 62.5/37.5 the second *)
-Theorem C19_relayout_idempotent_refuted :
+   (10 px of content, stretched) on line 1, item b 20 px on line 2: lines 45/55, and 62.5/37.5 from the written styles.
+   The harness replays this container: one pass and two passes must agree on the implementation *)
+Theorem C19_relayout_shared_style_variant_refuted :
   normal (layout witness) = [(45, 0, [45]); (55, 45, [20])] /\
-  normal (layout (after witness)) = [(125 # 2, 0, [45]); (75 # 2, 125 # 2, [20])] /\
-  ~ same_layout (layout (after witness)) (layout witness).
-Proof. exact relayout_not_idempotent. Qed.
-Print Assumptions C19_relayout_idempotent_refuted.
+  normal (layout (after witness)) = [(45, 0, [45]); (55, 45, [20])] /\
+  normal (layout (after_shared_style witness)) = [(125 # 2, 0, [45]); (75 # 2, 125 # 2, [20])] /\
+  ~ same_layout (layout (after_shared_style witness)) (layout witness).
+Proof. exact shared_style_variant_refuted. Qed.
+Print Assumptions C19_relayout_shared_style_variant_refuted.
 
 (* ---- 6. the caller's argument containers (options['stylesheets'] in Document._build_layout_context) ----
    render_call env sheets = (the caller's list after the render_call, what the render sees of each sheet: its source and whether its
